@@ -691,3 +691,25 @@ func PhiEdges(fn *ssa.Function, name string, pred func(v ssa.Value) bool) []Edge
 	}
 	return out
 }
+
+// Nearest keeps, among candidate guard edges, those whose If can reach one of
+// the sinks without passing through the If of another candidate — "the check
+// closest to the sink" when the same test is spelled several times.
+func Nearest(fn *ssa.Function, edges []Edge, sinks []ssa.Instruction) []Edge {
+	ifs := EdgeIfs(edges)
+	var out []Edge
+	for _, e := range edges {
+		self := e.From.Instrs[len(e.From.Instrs)-1]
+		var others []ssa.Instruction
+		for _, i := range ifs {
+			if i != self {
+				others = append(others, i)
+			}
+		}
+		h := Reach(Query{Fn: fn, StartEdges: []Edge{{e.From, 0}, {e.From, 1}}, Barriers: others, Target: IsTarget(sinks)})
+		if h != nil {
+			out = append(out, e)
+		}
+	}
+	return out
+}
